@@ -465,6 +465,9 @@ pub struct FaultPlan {
     pub fail_keys: Vec<String>,
     /// If set, `fail_keys` only apply to mutating operations with index in [from, to) (a transient fault).
     pub fail_keys_window: Option<(u64, u64)>,
+    /// If set, `fail_keys` only apply while update check number k (0-based, in order of first request) is the
+    /// most recent one.
+    pub fail_keys_during_check: Option<usize>,
 }
 
 #[derive(Default)]
@@ -491,10 +494,11 @@ impl StorageState {
         self.mut_ops += 1;
         self.fault.fail_all || self.fault.fail_ops.contains(&i)
     }
-    pub fn next_key_op_fails(&mut self, key: &str) -> bool {
+    pub fn next_key_op_fails(&mut self, key: &str, checks_started: usize) -> bool {
         let i = self.mut_ops;
         let f = self.next_op_fails();
-        let in_window = self.fault.fail_keys_window.map(|(a, b)| i >= a && i < b).unwrap_or(true);
+        let in_window = self.fault.fail_keys_window.map(|(a, b)| i >= a && i < b).unwrap_or(true)
+            && self.fault.fail_keys_during_check.map(|k| checks_started == k + 1).unwrap_or(true);
         f || (in_window && self.fault.fail_keys.iter().any(|k| k == key))
     }
     pub fn apply_commit(&mut self) {
@@ -744,6 +748,9 @@ pub struct Script {
     /// When a check's scripted attempts are exhausted: repeat the last one forever instead of
     /// answering "no update" (a server that never recovers).
     pub repeat_last_attempt: bool,
+    /// A timer implementation that completes `wait_until` at once when asked to (the bound counts as already
+    /// reached); `wait_for` timers stay gates.  Switched on by a check at a moment of its choosing.
+    pub until_timers_ready: bool,
 }
 
 // ---------------------------------------------------------------------------------------------
